@@ -63,7 +63,7 @@ def run(facts, rep, tier):
         s = borrow_mut_sites(b)
         if s:
             muts[name] = s
-    rep.floor("C11.G", "functions with borrow_mut on GraphBody/ContextBody", len(muts), 15)
+    rep.floor("C11.G", "functions with borrow_mut on GraphBody/ContextBody", len(muts), 12)
     rep.analysed["mutators"] = sorted(muts)
     # reverse call graph
     callers = {}
@@ -462,7 +462,7 @@ def atomicity(facts, rep, muts, flow_of):
                 ok = bool(ka) and (bool(kc) or inner)
                 rep.ob("C11.B", "%s|pair:%s" % (name, a), ok,
                        "%s updates both %s (%s) and %s (%s)" % (name.split("::")[-1], a, sorted(ka), c, sorted(kc) or "inner map"), b.loc())
-    rep.floor("C11.B", "effective writes to Graph/Context bodies", n, 15)
+    rep.floor("C11.B", "effective writes to Graph/Context bodies", n, 10)
 
 
 def dependency_discipline(facts, rep, flow_of):
